@@ -239,6 +239,47 @@ def _short_range(X):
     raise E("shortest names: `for n_parts in range(…)` not found")
 
 
+def _fix_facts(X):
+    """(parseClashCheck, collectDupSignaturePass): presence and position of the two repairs of F8a / F8b."""
+    E = X.ExtractError
+    fn = X._func(X._parse("task_utils.py"), "parse_collected_tasks_with_task_marker")
+    clash = False
+    for n in ast.walk(fn):
+        if isinstance(n, ast.For) and ast.unparse(n.target) == "name":
+            body = n.body
+            srcs = [ast.unparse(b) for b in body]
+            has_assign = any(s.replace(" ", "") == "clashing_names=collected_tasks.keys()&names_to_functions.keys()" for s in srcs)
+            has_raise = any(isinstance(b, ast.If) and ast.unparse(b.test) == "clashing_names" and any(isinstance(x, ast.Raise) for x in b.body) for b in body)
+            upd = [i for i, s in enumerate(srcs) if s == "collected_tasks.update(names_to_functions)"]
+            if has_assign and has_raise:
+                chk = [i for i, b in enumerate(body) if isinstance(b, ast.If) and ast.unparse(b.test) == "clashing_names"]
+                if not upd or upd[-1] < chk[0]:
+                    raise E("parse_collected_tasks_with_task_marker: clash check is not followed by the update")
+                clash = True
+            elif has_assign or has_raise:
+                raise E("parse_collected_tasks_with_task_marker: clash check only partly present")
+    pc = X._func(X._parse("collect.py"), "pytask_collect")
+    calls = []
+    for st in pc.body:
+        if isinstance(st, ast.Expr) and isinstance(st.value, ast.Call):
+            calls.append(ast.unparse(st.value.func))
+    want = ["_collect_from_paths", "_collect_from_tasks", "_collect_not_collected_tasks"]
+    pos = [calls.index(w) if w in calls else None for w in want]
+    if None in pos or pos != sorted(pos):
+        raise E(f"pytask_collect: collection steps changed: {calls}")
+    dup = "_fail_tasks_with_duplicated_signatures" in calls
+    if dup:
+        i = calls.index("_fail_tasks_with_duplicated_signatures")
+        ext = calls.index("session.tasks.extend") if "session.tasks.extend" in calls else None
+        if i < pos[-1] or ext is None or i > ext:
+            raise E("pytask_collect: duplicate-signature pass is not between the left-over pass and session.tasks.extend")
+        body = ast.unparse(X._func(X._parse("collect.py"), "_fail_tasks_with_duplicated_signatures"))
+        for needle in ("signature in seen", "seen.add(signature)", "CollectionOutcome.FAIL"):
+            if needle not in body:
+                raise E(f"_fail_tasks_with_duplicated_signatures: `{needle}` not found")
+    return clash, dup
+
+
 def collect_section() -> list[str]:
     X = _api()
     E = X.ExtractError
@@ -266,5 +307,10 @@ def collect_section() -> list[str]:
     L.append(f"def idScalarTypes : List String := {X.lean_list(tys, s)}")
     L.append(f"def shortNameLo : Nat := {lo}")
     L.append(f"def shortNameHi : Nat := {hi}")
+    clash, dup = _fix_facts(X)
+    L.append("/-- `parse_collected_tasks_with_task_marker` raises when a new name/id is already a key (fix of F8a). -/")
+    L.append(f"def parseClashCheck : Bool := {X.lean_bool(clash)}")
+    L.append("/-- `pytask_collect` runs `_fail_tasks_with_duplicated_signatures` after the left-over pass (fix of F8b). -/")
+    L.append(f"def collectDupSignaturePass : Bool := {X.lean_bool(dup)}")
     L.append("")
     return L
